@@ -4,12 +4,14 @@
    must accept it, end with every caller finished with exactly the observed
    results, Shutdown returned, and no connection registered — as observed *)
 Definition decode_event (c : Z) : event :=
-  let i := Z.to_nat (c / 8) in
-  let k := (c mod 8) / 2 in
+  let i := Z.to_nat (c / 16) in
+  let k := (c mod 16) / 2 in
   let ran := Z.odd c in
   if k =? 0 then ECallStart i ran
   else if k =? 1 then ECallReturn i ran
-  else if k =? 2 then EShutStart else EShutReturn.
+  else if k =? 2 then EShutStart
+  else if k =? 3 then EShutReturn
+  else if k =? 4 then ERunStart else ERunFail.
 Definition observed_results (nthreads : nat) (evs : list event) : list (list result) :=
   map (fun i => rev (flat_map (fun e => match e with
                                    | ECallReturn j ran => if Nat.eqb i j then [if ran then ROk else RClosed] else []
